@@ -28,7 +28,21 @@ for pid in sorted(os.listdir(f'{V}/mutants')):
     ps=sorted(os.path.basename(p)[:-6] for p in glob.glob(f'{V}/mutants/{pid}/*.patch'))
     if ps: dm.append(f'* {pid}: '+', '.join(ps))
 detection='\n'.join(det)+'\n\nBuilder-written changes (all reported by their check with a new key; see `notes/Cxx.md`; `tools/trymutant.sh <patch> <Cxx>` re-runs one):\n\n'+'\n'.join(dm)
+rows=['| id | quick: states / executions (last run) | exhaustive | fixed keys | open listed keys | seeded changes caught | notes |','|---|---|---|---|---|---|---|']
+titles={json.loads(l)['id']:json.loads(l)['title'] for l in open(f'{V}/properties.jsonl')}
+for pid in sorted(titles):
+    try:
+        e=json.load(open(f'{V}/evidence/{pid}.json')); c=e['coverage']
+        cov=f"{c.get('states','?')} / {c.get('transitions','?')} ({e['tier']})"; exh=str(c.get('exhaustive'))
+    except Exception:
+        cov='-'; exh='-'
+    nf=sum(1 for x in known if x['property']==pid and x['status']=='fixed'); no=sum(1 for x in known if x['property']==pid and x['status']=='open')
+    seeds=[json.load(open(d)) for d in glob.glob(f'{V}/seeded/{pid}-*/meta.json')]
+    sc=sum(1 for m in seeds if m.get('caught'))
+    rows.append(f"| {pid} | {cov} | {exh} | {nf} | {no} | {sc}/{len(seeds)} | notes/{pid}.md |")
+status='\n'.join(rows)
 s=open(f'{V}/DESIGN.md').read()
+s=re.sub(r'<!-- BEGIN:STATUS -->.*?<!-- END:STATUS -->', lambda m:'<!-- BEGIN:STATUS -->\n'+status+'\n<!-- END:STATUS -->', s, flags=re.S)
 s=re.sub(r'<!-- BEGIN:FINDINGS -->.*?<!-- END:FINDINGS -->', lambda m:'<!-- BEGIN:FINDINGS -->\n'+find+'\n<!-- END:FINDINGS -->', s, flags=re.S)
 s=re.sub(r'<!-- BEGIN:DETECTION -->.*?<!-- END:DETECTION -->', lambda m:'<!-- BEGIN:DETECTION -->\n'+detection+'\n<!-- END:DETECTION -->', s, flags=re.S)
 open(f'{V}/DESIGN.md','w').write(s)
